@@ -478,3 +478,167 @@ theorem readTree_iff_parseDer (l : List Nat) (hb : ∀ b ∈ l, b < 256) (hmax :
     exact (readTree_enc d w k hmax).1
 
 end Codec.Der
+
+/-! ## the certificate: everything `certFieldsOfDer` reads has only tags the `der` crate knows -/
+namespace Codec.CertAsn1
+open Codec Codec.Der
+
+theorem parseTime_known (d : Der) (e : Nat) (h : parseTime d = some e) : d.known = true := by
+  unfold parseTime at h
+  split at h
+  · rename_i tag s
+    dsimp only at h
+    split at h
+    · rename_i ht; subst ht; rfl
+    · split at h
+      · rename_i ht; subst ht; rfl
+      · simp at h
+  · simp at h
+
+theorem parseAttr_known (d : Der) (a : AttrView) (h : parseAttr d = some a) : d.known = true := by
+  unfold parseAttr at h
+  split at h
+  · rename_i oid st s
+    cases hi : oidIndex oid with
+    | none => simp [hi, bind, Option.bind] at h
+    | some i =>
+      simp only [hi, bind, Option.bind] at h
+      split at h
+      · rename_i hst; subst hst; rfl
+      · split at h
+        · rename_i hst; subst hst; rfl
+        · simp at h
+  · simp at h
+
+theorem mapO_known {β : Type} (f : Der → Option β) (hf : ∀ d b, f d = some b → d.known = true) :
+    ∀ (l : List Der) (bs : List β), mapO f l = some bs → Der.knownL l = true
+  | [], _, _ => rfl
+  | d :: r, bs, h => by
+    obtain ⟨b, bs2, h1, h2, _⟩ := mapO_some_cons _ _ _ _ h
+    simp [Der.knownL, hf d b h1, mapO_known f hf r bs2 h2]
+
+theorem parseDn_known (d : Der) (l : List AttrView) (h : parseDn d = some l) : d.known = true := by
+  unfold parseDn at h
+  split at h
+  · rename_i cs
+    simp only [Der.known, mapO_known parseAttr parseAttr_known cs l h]; rfl
+  · simp at h
+
+theorem parseExt_known (d : Der) (e : ExtView) (h : parseExt d = some e) : d.known = true := by
+  unfold parseExt at h
+  split at h
+  · rfl
+  · rfl
+  · simp at h
+
+theorem certFieldsOfDer_known (d : Der) (v : View) (h : certFieldsOfDer d = some v) : d.known = true := by
+  unfold certFieldsOfDer at h
+  split at h
+  · rename_i serial sigOid issuer nb na subject pkOid curveOid pk exts
+    split at h
+    · simp at h
+    · cases h1 : parseDn issuer with
+      | none => simp [h1, bind, Option.bind] at h
+      | some i =>
+      cases h2 : parseDn subject with
+      | none => simp [h1, h2, bind, Option.bind] at h
+      | some s =>
+      cases h3 : parseTime nb with
+      | none => simp [h1, h2, h3, bind, Option.bind] at h
+      | some b =>
+      cases h4 : parseTime na with
+      | none => simp [h1, h2, h3, h4, bind, Option.bind] at h
+      | some a =>
+      cases h5 : mapO parseExt exts with
+      | none => simp [h1, h2, h3, h4, h5, bind, Option.bind] at h
+      | some x =>
+        simp [Der.known, Der.knownL, parseDn_known _ _ h1, parseDn_known _ _ h2, parseTime_known _ _ h3,
+          parseTime_known _ _ h4, mapO_known parseExt parseExt_known _ _ h5]
+        decide
+  · simp at h
+
+/-- `cert_roundtrip` (Lemmas/CodecCertAsn1.lean) with the tree made explicit: the DER tree `d` whose fields are read
+is well formed and the bytes `as_asn1` writes are *its* encoding -/
+theorem cert_roundtrip_tree (f : Fields) (n : Node) (buf : List Nat) (hn : certNode f = some n) (hw : f.WFull)
+    (hl : n.lenOk) (hfit : n.need ≤ buf.length) :
+    ∃ d v, asAsn1 f.lazy buf = .ok n.enc ∧ d.WF ∧ d.enc = n.enc ∧ parseDer n.enc = some d ∧
+      certFieldsOfDer d = some v ∧ f.view = some v := by
+  obtain ⟨⟨hi, hs, he⟩, hna⟩ := hw
+  have hok := asAsn1_ok f n buf hn ⟨hi, hs, he⟩ hl hfit
+  obtain ⟨sa, pa, cu, issuer, nb, na, subject, h2, h3, h4, h5, rfl⟩ := certNode_parts f n hn
+  have hle : Node.lenOkL (f.exts.map extNode) := by
+    simp only [seq, Node.lenOk, Node.lenOkL] at hl
+    exact hl.2.2.2.2.2.2.2.2.1.2.1.2
+  obtain ⟨di, vi, i1, i2, i3⟩ := dn_parse f.issuer issuer h2 hi
+  obtain ⟨dsu, vsu, s1, s2, s3⟩ := dn_parse f.subject subject h5 hs
+  obtain ⟨dnb, b1, b2⟩ := time_parse _ nb h3
+  obtain ⟨dna, a1, a2⟩ := time_parse _ na h4
+  obtain ⟨dex, vex, x1, x2, x3⟩ := exts_parse f.exts he hle
+  let d : Der := .cons 0x30 [.cons 0xA0 [.prim 0x02 [2]], .prim 0x02 f.serial, .cons 0x30 [.prim 0x06 OID_ECDSA_WITH_SHA256],
+    di, .cons 0x30 [dnb, dna], dsu,
+    .cons 0x30 [.cons 0x30 [.prim 0x06 OID_PUB_KEY_ECPUBKEY, .prim 0x06 OID_EC_TYPE_PRIME256V1], .prim 0x03 (0 :: f.pubkey)],
+    .cons 0xA3 [.cons 0x30 dex]]
+  have htd : (seq [.cons 0xA0 [.prim 0x02 [2]], .prim 0x02 f.serial, seq [.prim 0x06 OID_ECDSA_WITH_SHA256], issuer,
+      seq [nb, na], subject,
+      seq [seq [.prim 0x06 OID_PUB_KEY_ECPUBKEY, .prim 0x06 OID_EC_TYPE_PRIME256V1], .prim 0x03 (bitstrContent false f.pubkey)],
+      .cons 0xA3 [seq (f.exts.map extNode)]]).toDer = some [d] := by
+    simp [seq, Node.toDer, Node.toDerL, tagConstructed, i1, s1, b1, a1, x1, bitstrContent_false, d]
+  have htags : (seq [.cons 0xA0 [.prim 0x02 [2]], .prim 0x02 f.serial, seq [.prim 0x06 OID_ECDSA_WITH_SHA256], issuer,
+      seq [nb, na], subject,
+      seq [seq [.prim 0x06 OID_PUB_KEY_ECPUBKEY, .prim 0x06 OID_EC_TYPE_PRIME256V1], .prim 0x03 (bitstrContent false f.pubkey)],
+      .cons 0xA3 [seq (f.exts.map extNode)]]).tagsOk := by
+    refine ⟨by decide, fun _ => ⟨⟨by decide, fun _ => ⟨⟨by decide, by decide⟩, trivial⟩⟩, ⟨by decide, by decide⟩,
+      ⟨by decide, fun _ => ⟨⟨by decide, by decide⟩, trivial⟩⟩, dnNode_tagsOk _ _ h2,
+      ⟨by decide, fun _ => ⟨timeNode_tagsOk _ _ h3, timeNode_tagsOk _ _ h4, trivial⟩⟩, dnNode_tagsOk _ _ h5,
+      ⟨by decide, fun _ => ⟨⟨by decide, fun _ => ⟨⟨by decide, by decide⟩, ⟨by decide, by decide⟩, trivial⟩⟩, ⟨by decide, by decide⟩, trivial⟩⟩,
+      ⟨by decide, fun _ => ⟨⟨by decide, fun _ => exts_tagsOk _ he⟩, trivial⟩⟩, trivial⟩⟩
+  obtain ⟨hwd, hed⟩ := toDer_enc _ hl htags [d] htd
+  have hpd := parseDer_enc d hwd.1
+  simp only [Der.encL, List.append_nil] at hed
+  rw [hed] at hpd
+  refine ⟨d, View.mk f.serial 1 vi f.notBefore f.notAfter vsu 1 1 f.pubkey vex, hok, hwd.1, hed, hpd, ?_, ?_⟩
+  · simp only [d, certFieldsOfDer, ne_eq, not_true_eq_false, or_self, if_false, i2, s2, b2, a2, x2, bind, Option.bind, pure]
+    by_cases hz : f.notAfter = 0
+    · simp [hz]
+    · have : f.notAfter ≠ DOESNT_EXPIRE := by
+        have : DOESNT_EXPIRE = 252455615999 := rfl
+        omega
+      simp [hz, this]
+  · simp [Fields.view, i3, s3, x3, sa, pa, cu, bind, Option.bind, pure]
+
+end Codec.CertAsn1
+
+namespace C17
+open Codec Codec.Der Codec.CertAsn1
+
+/-- **Certificate round trip with the `der`-crate reading layer as the DER reader** (audit C17, concern 2).
+For every certificate within the declared bounds, `as_asn1` into any buffer with room (below 64 KiB) writes
+`n.enc`; on these bytes the model of `AnyRef::from_der` (crate `der` 0.7.10) returns the outer tag and value, the
+tree reader made only of the crate's routines (`readTree`: `AnyRef::from_der` + the `while !is_finished()
+{ AnyRef::decode }` loop on every constructed value) returns the *same* tree `d` as the model's own `parseDer`
+(so `C17.cert_der_roundtrip` does not depend on `parseDer` being a faithful DER reader), every tag of `d` is one
+the crate knows, and the fields read from `d` are the certificate's (`Fields.view`).
+
+What this does **not** say: `certFieldsOfDer` (tree → fields) is still specification-side — rs-matter has no
+X.509 → Matter-TLV conversion, and its X.509 parser (`cert/x509/cert.rs`) is for DAC / PAI / PAA attestation
+certificates, see `CodecDerLinkX509.lean` for what that parser's field readers return on `n.enc`. -/
+theorem cert_der_roundtrip_derrd (f : Fields) (h : f.Legal) :
+    ∃ n, certNode f = some n ∧ ∀ buf : List Nat, n.need ≤ buf.length → buf.length < 65536 →
+      ∃ d v, asAsn1 f.lazy buf = .ok n.enc ∧
+        DerRd.fromDerAny n.enc = .ok (d.tag, d.body) ∧ readTree n.enc = some d ∧ parseDer n.enc = some d ∧
+        d.known = true ∧ certFieldsOfDer d = some v ∧ f.view = some v := by
+  obtain ⟨n, hn⟩ := certNode_some f h
+  refine ⟨n, hn, fun buf hfit hsmall => ?_⟩
+  have hl := lenOk_of_need n (by omega)
+  obtain ⟨d, v, h1, hw, he, h3, h4, h5⟩ := cert_roundtrip_tree f n buf hn ⟨h.wf, h.na⟩ hl hfit
+  have hk := certFieldsOfDer_known d v h4
+  have hmax : d.enc.length ≤ DerRd.MAX_LEN := by
+    have := need_ge n
+    have hM : DerRd.MAX_LEN = 268435455 := rfl
+    rw [he]; omega
+  obtain ⟨r1, r2⟩ := readTree_enc d hw hk hmax
+  have r0 := fromDerAny_enc_der d hw hk hmax
+  rw [he] at r0 r1 r2
+  exact ⟨d, v, h1, r0, r1, r2, hk, h4, h5⟩
+
+end C17
